@@ -75,11 +75,16 @@ class Hub:
         self.sinks, self.srcs, self.cnt = {}, {}, {}
 
     def sink(self, h):
+        """sink number h as a BOUND METHOD taken afresh from its recorder on every call: equal to, but not the same object as, the
+        handle of an earlier registration (what `hub.setDataSink(ep, recorder.on_message)` written twice hands over)"""
         if h not in self.sinks:
-            def f(data, h=h):
-                self.log.append('K%s:%s' % (h, 'N' if data is None else data))
-            self.sinks[h] = f
-        return self.sinks[h]
+            hub = self
+
+            class _Rec:
+                def on_message(self_, data, h=h):
+                    hub.log.append('K%s:%s' % (h, 'N' if data is None else data))
+            self.sinks[h] = _Rec()
+        return self.sinks[h].on_message
 
     def src(self, h):
         if h not in self.srcs:
@@ -94,7 +99,7 @@ class Hub:
     def rules(self):
         inv = {id(o): n for n, o in self.eps.items()}
         return ({k: sorted(inv.get(id(o), -1) for o in v) for k, v in self.c.forwarding.items() if v},
-                {k: sorted(id(f) for f in v) for k, v in self.c.output_functions.items() if v},
+                {k: sorted(set(id(getattr(f, '__self__', f)) for f in v)) for k, v in self.c.output_functions.items() if v},      # a sink is one sink however often it is listed
                 {k: sorted(id(f) for f in v) for k, v in self.c.input_functions.items() if v})
 
     def step(self, op):
@@ -153,7 +158,7 @@ class Hub:
             else:
                 inv = {id(o): n for n, o in self.eps.items()}
                 want = sorted(['S%s:%s' % (d, rx) for d in set(inv[id(o)] for o in raw_fwd.get(a[0], []))] +
-                              ['K%s:%s' % (h, rx) for h in [hh for hh, f in self.sinks.items() if any(f is g for g in raw_snk.get(a[0], []))]])
+                              ['K%s:%s' % (h, rx) for h in sorted(set(hh for hh, f in self.sinks.items() for g in raw_snk.get(a[0], []) if getattr(g, '__self__', None) is f))])
                 got = sorted(e.rsplit(':', 1)[0] if e[0] == 'S' else e for e in evs)
                 if got != want:
                     viol = 'receive of %s on %s delivered %s, rules require %s' % (rx, a[0], got, want)
